@@ -43,6 +43,18 @@ func runC13(c *Ctx) {
 	c13DiskJoin(c)
 	c13ValidatorCovers(c)
 	c13ConstructorValidates(c)
+	{
+		var pp []*packages.Package
+		for _, rel := range []string{"private/pkg/normalpath", "private/pkg/storage/storageutil", "private/pkg/storage", "private/pkg/storage/storageos", "private/pkg/storage/storagemem", "private/pkg/filepathext"} {
+			if q := c.P.Pkg(rel); q != nil {
+				pp = append(pp, q)
+			}
+		}
+		c13CleanIsLast(c, pp)
+	}
+	c13NoAscend(c)
+	// the temporary file of an atomic put is created in the final path's own directory, i.e. inside the root (shared with C15)
+	c15AtomicWriter(c)
 }
 
 // ---- (1) R-ABSVALID ------------------------------------------------------------------------------
